@@ -12,4 +12,4 @@ facts.regenerate()
 driver.ensure_makefile()
 PY
 cd coq
-timeout 3000 make -k -j16 COQC="timeout 900 coqc" 2>&1 | tail -n 40
+timeout 3000 make -k -j16 COQC="timeout 1500 coqc" 2>&1 | tail -n 40
